@@ -50,6 +50,10 @@ class LbWorld(object):
       self.ssp.gate = gevent.event.Event()
     if self.kind == 'heap':
       builder = HeapBalancerSink.Builder(server_set_provider=self.ssp)
+    elif params.get('stock_after_prior'):
+      # another aperture balancer of the same process was configured with its own settings earlier; the one under test uses the stock ones
+      ApertureBalancerSink.Builder(server_set_provider=Prov([]), min_size=3, max_size=3, min_load=0.1, max_load=9.0)
+      builder = ApertureBalancerSink.Builder(server_set_provider=self.ssp)
     else:
       builder = ApertureBalancerSink.Builder(
         server_set_provider=self.ssp,
